@@ -1,0 +1,39 @@
+"""
+Verification instrumentation (off by default).
+
+When the environment variable PLAYBACK_VERIF_TRACE names a file at import time, emit() appends one JSON line per
+event to it: process id, thread id and a per process sequence number taken under a module lock, so the lines of one
+process are totally ordered. Without the variable emit() does nothing.
+"""
+import json
+import os
+import threading
+
+_PATH = os.environ.get('PLAYBACK_VERIF_TRACE')
+_LOCK = threading.Lock()
+_SEQ = [0]
+
+
+def enabled():
+    """
+    :return: Whether verification tracing is switched on
+    :rtype: bool
+    """
+    return _PATH is not None
+
+
+def emit(event, **fields):
+    """
+    Append one event to the trace file (no-op unless tracing is switched on)
+    :param event: Event name
+    :type event: str
+    :param fields: Event arguments and cheap scalar state
+    """
+    if _PATH is None:
+        return
+    with _LOCK:
+        _SEQ[0] += 1
+        record = {'seq': _SEQ[0], 'pid': os.getpid(), 'tid': threading.current_thread().ident, 'e': event}
+        record.update(fields)
+        with open(_PATH, 'a') as trace_file:
+            trace_file.write(json.dumps(record, default=repr) + '\n')
